@@ -177,11 +177,13 @@ def run_go_test(out, unit, tier, seed, workdir, overlay):
         return
     if "[build failed]" in log or "[setup failed]" in log:
         if unit["pkg"].rstrip("/").endswith("sm4") and "verifnoasm" not in unit.get("tags", ""):
-            # the declarations of sealAsm/openAsm/copyAsm/needExpand may differ from the ones the monitors call directly:
-            # rebuild with the adapters stubbed out; everything that goes through the public API still runs
-            u2 = dict(unit, tags=(unit.get("tags", "") + ",verifnoasm").lstrip(","))
+            # the declarations of copyAsm/needExpand (first) or also of sealAsm/openAsm (then) may differ from the ones the
+            # monitors call directly: rebuild with those adapters stubbed out; everything that goes through the public API still runs
+            add = "verifnohelpers" if "verifnohelpers" not in unit.get("tags", "") else "verifnoasm"
+            u2 = dict(unit, tags=(unit.get("tags", "") + "," + add).lstrip(","))
             out.units.pop()
-            out.notes.setdefault("degraded_builds", []).append("%s: rebuilt with tag verifnoasm (direct calls of sealAsm/openAsm/copyAsm/needExpand unavailable on this tree)" % name)
+            out.notes["degraded_builds"] = [d for d in out.notes.get("degraded_builds", []) if not d.startswith(name + ":")]
+            out.notes.setdefault("degraded_builds", []).append("%s: rebuilt with tags %s (direct calls of %s unavailable on this tree)" % (name, u2["tags"], "copyAsm/needExpand" if add == "verifnohelpers" else "sealAsm/openAsm/copyAsm/needExpand"))
             return run_go_test(out, u2, tier, seed, workdir, overlay)
         out.inconclusive.append("%s: build failed, see %s" % (name, log_path))
         return
